@@ -10,8 +10,8 @@ structure R (U : Universe) (c : Acc) (a : AAcc) : Prop where
   execd : c.execd = a.execd
   loaded : c.loaded = a.loaded
 
-theorem step_refines (U : Universe) (hinj : KeyInj U) (bust : Bool) (g : Nat) (c : Acc) (a : AAcc) (t : Tid)
-    (ht : t < U.n) (h : R U c a) : R U (stepC U bust g c t) (stepA U bust g a t) := by
+theorem step_refines (U : Universe) (hinj : KeyInj U) (bust : Bool) (g : Nat) (fl : List Tid) (c : Acc) (a : AAcc) (t : Tid)
+    (ht : t < U.n) (h : R U c a) : R U (stepC U bust g fl c t) (stepA U bust g fl a t) := by
   obtain ⟨wf, hm, hv, he, hl⟩ := h
   have hmt : cLoad U c.disk t = a.map t := by rw [← hm]; rfl
   have hic : labIsCached U c.disk t = (a.map t).isSome := by
@@ -26,7 +26,7 @@ theorem step_refines (U : Universe) (hinj : KeyInj U) (bust : Bool) (g : Nat) (c
       exact ⟨wf, hm, by simp [hv], he, by simp [hl]⟩
     | none =>
       simp only [Option.isSome_none, Bool.false_eq_true, if_false, hv]
-      cases hr : runTask U g a.vals t with
+      cases hr : runTask U g fl a.vals t with
       | none => exact ⟨wf, hm, by simp, by simp [he], hl⟩
       | some v =>
         refine ⟨wf_save U _ t _ wf ht, ?_, by simp, by simp [he], hl⟩
@@ -34,7 +34,7 @@ theorem step_refines (U : Universe) (hinj : KeyInj U) (bust : Bool) (g : Nat) (c
         · simp [abs_save_not_persist U _ t _ hp, hm]
         · simp [abs_save_persist U _ t _ hinj hp, hm]
   · simp only [Bool.not_true, Bool.false_and, Bool.false_eq_true, if_false, if_true, hv]
-    cases hr : runTask U g a.vals t with
+    cases hr : runTask U g fl a.vals t with
     | none => exact ⟨wf, hm, by simp, by simp [he], hl⟩
     | some v =>
       refine ⟨wf_save U _ t _ wf ht, ?_, by simp, by simp [he], hl⟩
@@ -42,15 +42,15 @@ theorem step_refines (U : Universe) (hinj : KeyInj U) (bust : Bool) (g : Nat) (c
       · simp [abs_save_not_persist U _ t _ hp, hm]
       · simp [abs_save_persist U _ t _ hinj hp, hm]
 
-theorem fold_refines (U : Universe) (hinj : KeyInj U) (bust : Bool) (g : Nat) (l : List Tid)
+theorem fold_refines (U : Universe) (hinj : KeyInj U) (bust : Bool) (g : Nat) (fl : List Tid) (l : List Tid)
     (hl : ∀ t ∈ l, t < U.n) (c : Acc) (a : AAcc) (h : R U c a) :
-    R U (l.foldl (stepC U bust g) c) (l.foldl (stepA U bust g) a) := by
+    R U (l.foldl (stepC U bust g fl) c) (l.foldl (stepA U bust g fl) a) := by
   induction l generalizing c a with
   | nil => exact h
   | cons t ts ih =>
     simp only [List.foldl]
     exact ih (fun x hx => hl x (List.mem_cons_of_mem _ hx)) _ _
-      (step_refines U hinj bust g c a t (hl t (List.mem_cons_self ..)) h)
+      (step_refines U hinj bust g fl c a t (hl t (List.mem_cons_self ..)) h)
 
 /-- only tasks of the universe are planned -/
 theorem foldl_condcons_mem (f : List Tid → Tid → Bool) (l acc : List Tid) (t : Tid)
@@ -74,13 +74,13 @@ theorem neededFrom_lt (U : Universe) (uc : Tid → Bool) (req : List Tid) (t : T
   · simpa using h
   · simp at h
 
-theorem run_refines (U : Universe) (hinj : KeyInj U) (bust : Bool) (g : Nat) (req : List Tid) (d : Disk)
-    (wf : Wf U d) : R U (labRun U bust g req d) (specRun U bust g req (abs U d)) := by
+theorem run_refines (U : Universe) (hinj : KeyInj U) (bust : Bool) (g : Nat) (fl : List Tid) (req : List Tid) (d : Disk)
+    (wf : Wf U d) : R U (labRun U bust g fl req d) (specRun U bust g fl req (abs U d)) := by
   unfold labRun specRun
   have huc : (fun t => !bust && labIsCached U d t) = (fun t => !bust && (abs U d t).isSome) := by
     funext t; unfold labIsCached; rw [isCached_iff_load U d t wf hinj]; rfl
   simp only [huc]
-  apply fold_refines U hinj bust g _ (fun t ht => neededFrom_lt U _ req t ht)
+  apply fold_refines U hinj bust g fl _ (fun t ht => neededFrom_lt U _ req t ht)
   exact ⟨wf, rfl, rfl, rfl, rfl⟩
 
 theorem uncache_refines (U : Universe) (hinj : KeyInj U) (ts : List Tid) (d : Disk) (wf : Wf U d) :
